@@ -310,7 +310,7 @@ def error_tables(repo: Path):
 
 def renderer_tables(repo: Path, err):
     src = strip_comments((repo / "src/main.rs").read_text())
-    body = fn_body(src, "eval_err_to_stacktrace", "peeled")
+    body = fn_body_by_shape(src, "eval_err_to_stacktrace", r"match error \{.*EvalError::AtLoc\s*\{.*StacktracedErrorMsg", "peeled")
     m = re.search(r"match error \{", body)
     if not m:
         raise ExtractError("peeled", "match error { … } not found")
@@ -326,7 +326,7 @@ def renderer_tables(repo: Path, err):
         alts = re.findall(r"EvalError::(\w+)\s*\{([^}]*)\}", pat)
         if not alts:
             raise ExtractError("peeled", f"unrecognised arm pattern {pat[:60]!r}")
-        if re.fullmatch(r"eval_err_to_stacktrace\(path, func, \*source\)", flat):
+        if re.fullmatch(r"\w+\(path, func, \*source\)", flat):           # the function's recursive call on the wrapped error
             for name, binds in alts:
                 if not re.match(r"\s*source\s*(,\s*\.\.)?\s*\Z", binds):
                     raise ExtractError("peeled", f"{name}: pattern binds more than `source`")
@@ -599,6 +599,30 @@ def match_arms(text, table):
     return arms
 
 
+def fn_body_by_shape(src: str, name: str, shape: str, table: str) -> str:
+    """the body of function `name`; if no function has that name (it was renamed), the body of the ONE function whose body
+    matches the regular expression `shape`"""
+    try:
+        b = fn_body(src, name, table)
+        if re.search(shape, b, re.S):
+            return b
+    except ExtractError:
+        pass
+    found = []
+    for m in re.finditer(r"\bfn\s+(\w+)\s*[(<]", src):
+        try:
+            b = fn_body(src, m.group(1), table)
+        except ExtractError:
+            continue
+        if re.search(shape, b, re.S):
+            found.append((m.group(1), b))
+    # nested helper closures / inner functions repeat their outer function's text: keep the innermost (shortest) body
+    found.sort(key=lambda t: len(t[1]))
+    if len(found) >= 1 and all(found[0][1] in f[1] for f in found):
+        return found[0][1]
+    raise ExtractError(table, f"function `{name}` not found, and {len(found)} functions have its shape")
+
+
 def eval_src(repo: Path) -> str:
     """the evaluator's source as one text: every file under src/eval (and src/builtins), comments stripped — functions are
     looked up in it by name or shape, so moving one to another file of the evaluator changes nothing"""
@@ -615,7 +639,7 @@ def binop_tables(repo: Path):
     extraction error, so that it cannot silently fall outside the table."""
     T = "binop_arms"
     src = eval_src(repo)
-    body = fn_body(src, "apply_binary_operation", T)
+    body = fn_body_by_shape(src, "apply_binary_operation", r"\bmatch op \{.*BinaryOp::Sum.*checked_add", T)
     m = re.search(r"\bmatch op \{", body)
     if not m:
         raise ExtractError(T, "`match op {` not found")
@@ -631,11 +655,21 @@ def binop_tables(repo: Path):
         a = arm.strip()
         # an arm that hands both operands to `eq` / `ref_eq` (however the result is then taken apart: `match`, `if let`, …)
         if not re.search(r"match \(lhs, rhs\)", a):
-            if re.search(r"(?<![\w:])eq\(lhs, rhs\)", a):
+            # which function it is is decided by what that function IS (its shape), not by its name
+            dm = re.search(r"(?<![\w:.])(\w+)\(lhs, rhs\)", a)
+            role = None
+            if dm:
+                try:
+                    cb = fn_body(src, dm.group(1), T)
+                    role = ("eq" if re.search(r"Value::Null\s*,\s*Value::Null", cb) else
+                            "ref_eq" if re.search(r"_\s*=>\s*None", cb) and "Value::Null" not in cb else None)
+                except ExtractError:
+                    role = None
+            if role == "eq":
                 for o in ops:
                     delegates[o] = "eq"
                 continue
-            if re.search(r"(?<![\w:])ref_eq\(lhs, rhs\)", a):
+            if role == "ref_eq":
                 if "new_invalid_op_types()" not in a:
                     raise ExtractError(T, "ref_eq arm without the invalid-types fallback")
                 for o in ops:
@@ -713,7 +747,9 @@ def eq_tables(repo: Path):
     out = {}
     for fn, default_re in (("eq", r"Err\(\( String::new\(\), error::render_type\(lhs\), error::render_type\(rhs\), \)\)"),
                            ("ref_eq", r"None")):
-        body = fn_body(src, fn, T)
+        shape = (r"\bmatch \(lhs, rhs\) \{.*Value::Null, Value::Null" if fn == "eq" else
+                 r"\bmatch \(lhs, rhs\) \{(?:(?!Value::Null).)*Value::List\(\w+\), Value::List\(\w+\)(?:(?!Value::Null).)*_\s*=>\s*None")
+        body = fn_body_by_shape(src, fn, shape, T)
         m = re.search(r"\bmatch \(lhs, rhs\) \{", body)
         if not m:
             raise ExtractError(T, f"`match (lhs, rhs)` not found in `{fn}`")
